@@ -9,7 +9,8 @@
    correspondence run evaluates the very same functions, are another
    (C15_Qc_ordered_field). *)
 From Coq Require Import ZArith List Bool Lia Field QArith Qcanon.
-From IBL.C15 Require Import Model Proofs Run.
+From IBL.C08 Require Model.
+From IBL.C15 Require Import Model Proofs Geo Run.
 Import ListNotations.
 Open Scope Z_scope.
 
@@ -201,6 +202,75 @@ Proof.
 Qed.
 Print Assumptions C15_dead_never_at_probe_ends.
 
+(* The raw weight as a function of the coordinate differences: non-negative and below the threshold
+   exactly beyond the squared radius R2 = 5201 um^2 (the numerical fact about exp(-(d/20)^1.3) and 0.005 is
+   checked by the harness for every coordinate difference occurring on the probes; here a hypothesis). *)
+Definition weight_by_distance {F : Type} (O : ops F) (wf : Z -> Z -> F) (thr : F) : Prop :=
+  (forall a b, fle O (f0 O) (wf a b)) /\ fltb O (f0 O) thr = true /\
+  (forall a b, 0 <= a -> 0 <= b -> (fltb O (wf a b) thr = true <-> R2 < a * a + b * b)).
+
+(* 10. Geometry: with integer site coordinates (xs, ys) and weights that depend on the distance as above, the
+   channels a dead/noisy channel i is repaired from are EXACTLY, in ascending order, the channels that are
+   not dead/noisy (label 0 or 3 - outside-brain channels are sources, as the property says) and lie within
+   squared distance 5201 um^2 (72.12 um) of i; i has no source (and is zeroed, theorem 2) iff every channel
+   within that radius is dead/noisy. *)
+Theorem C15_sources_by_distance :
+  forall (F : Type) (O : ops F), ordered_field O ->
+  forall (wf : Z -> Z -> F) (thr : F), weight_by_distance O wf thr ->
+  forall (xs ys labels : list Z) (i : nat),
+  map fst (sources O thr labels (geo_row wf xs ys i)) = geo_sources xs ys labels i /\
+  (sources O thr labels (geo_row wf xs ys i) = [] <->
+   forall j, (j < length xs)%nat -> is_bad (nth j labels 0) = true \/ R2 < d2 xs ys i j).
+Proof.
+  intros F O [H1 [H2 [H3 [H4 [H5 H6]]]]] wf thr [W1 [W2 W3]] xs ys labels i. split.
+  - exact (geo_sources_spec F O H1 H2 H3 H4 H5 H6 wf thr W1 W2 W3 xs ys labels i).
+  - exact (geo_isolated_iff F O H1 H2 H3 H4 H5 H6 wf thr W1 W2 W3 xs ys labels i).
+Qed.
+Print Assumptions C15_sources_by_distance.
+
+(* 11. On the dense layouts of neuropixel.trace_header (C08's model of it, proved there to be the canonical
+   site tables): NP1 - every channel within the radius is at most 7 channel numbers away and every channel at
+   most 4 away is within it; NP2 single shank - 9 and 8; NPultra - 96 and 72.  Hence on these probes a
+   dead/noisy channel is zeroed when all channels up to 7 (9, 96) numbers away are dead/noisy - at least 8
+   (10, 97) adjacent bad channels at a probe end, 15 (19, 193) inside - and is a convex combination as soon
+   as one channel at most 4 (8, 72) numbers away is usable. *)
+Theorem C15_isolated_on_headers :
+  forall (F : Type) (O : ops F), ordered_field O ->
+  forall (wf : Z -> Z -> F) (thr : F), weight_by_distance O wf thr ->
+  forall g nshank reach inner,
+  In (g, nshank, reach, inner)
+     [(C08.Model.NP1, 1, 7, 4); (C08.Model.NP21, 1, 9, 8); (C08.Model.NPU, 1, 96, 72)] ->
+  exists th, C08.Model.trace_header g nshank = Some th /\
+    length (C08.Model.g_x th) = 384%nat /\
+    forall labels i, (i < 384)%nat ->
+      let S := sources O thr labels (geo_row wf (C08.Model.g_x th) (C08.Model.g_y th) i) in
+      ((forall j, (j < 384)%nat -> zdist i j <= reach -> is_bad (nth j labels 0) = true) -> S = []) /\
+      ((exists j, (j < 384)%nat /\ zdist i j <= inner /\ is_bad (nth j labels 0) = false) -> S <> []).
+Proof.
+  intros F O [H1 [H2 [H3 [H4 [H5 H6]]]]] wf thr [W1 [W2 W3]] g nshank reach inner Hin.
+  apply (header_isolated F O H1 H2 H3 H4 H5 H6 wf thr W1 W2 W3).
+  cbn [In] in Hin. destruct Hin as [E|[E|[E|[]]]]; inversion E; subst.
+  - exact np1_header.
+  - exact np2_header.
+  - exact npu_header.
+Qed.
+Print Assumptions C15_isolated_on_headers.
+
+(* 12. (observation) On the 4-shank header the sites of different shanks share their (x, y): channels 0
+   (shank 0) and 48 (shank 1) are at distance 0, so interpolate_bad_channels called with h["x"], h["y"] of that
+   header repairs a channel from the other shanks with full weight. *)
+Theorem C15_np24_shanks_coincide :
+  exists th, C08.Model.trace_header C08.Model.NP24 4 = Some th /\
+    d2 (C08.Model.g_x th) (C08.Model.g_y th) 0 48 = 0 /\
+    nth 0 (C08.Model.g_shank th) 0 <> nth 48 (C08.Model.g_shank th) 0.
+Proof.
+  pose proof np24_coincident_sites as H.
+  destruct (C08.Model.trace_header C08.Model.NP24 4) as [th|]; [|discriminate].
+  exists th. split; [reflexivity|]. apply andb_true_iff in H. destruct H as [Ha Hb].
+  split; [now apply Z.eqb_eq|]. apply negb_true_iff, Z.eqb_neq in Hb. exact Hb.
+Qed.
+Print Assumptions C15_np24_shanks_coincide.
+
 (* ---------------------------------------------------------------------- *)
 (* The hypotheses are satisfiable on concrete, non-trivial inputs.           *)
 Local Definition h : Qc := dyadic 1 1.     (* 1/2 *)
@@ -255,4 +325,10 @@ Proof. vm_compute. reflexivity. Qed.
 Example C15_ex_detrend :
   map enc_val (detrend11 QcOps (map (fun z => dyadic z 0) [0; 1; 1; 0; 1; 1; 1; 1; 1; 1; 1; 1; 0])) =
   map (fun z => z * 2 ^ 32) [0; 1; 0; -1; 0; 0; 0; 0; 0; 0; 0; 0; 0].
+Proof. vm_compute. reflexivity. Qed.
+
+(* geometry: first 8 NP1 sites; channel 3 dead, channels 2 and 4 noisy: sources of 3 are 0, 1, 5, 6, 7 *)
+Example C15_ex_geo :
+  geo_sources [43; 11; 59; 27; 43; 11; 59; 27] [20; 20; 40; 40; 60; 60; 80; 80] [0; 0; 2; 1; 2; 0; 3; 0] 3
+  = [0%nat; 1%nat; 5%nat; 6%nat; 7%nat].
 Proof. vm_compute. reflexivity. Qed.
